@@ -1,2 +1,3 @@
 import QP.Base
+import QP.Props.C13
 import QP.Props.C14
